@@ -1,9 +1,16 @@
 """C05 -- loop-carried dependencies are exactly the cross-iteration dependency cycles.
 Theorems: Props/C05.v (path enumeration sound+complete, result = first-kept de-duplication, each class once).
+T: tools/gen_lcd.py regenerates Gallina from the CURRENT check_for_loopcarried_dep (offset + doubled kernel, sequential search,
+   the whole post-processing from `paths_set = set()` to the returned dict), _paths_to_next_iteration, _extend_path and
+   _get_node_by_lineno; PropsGen/C05gen.v proves them equal to the hand model for every input and restates the C05 theorems for
+   them; the regenerated definitions are evaluated by Coq (binary64) on the recorded real runs and compared bit for bit.
 X: Model/Deps.lcd_entries = get_loopcarried_dependencies() (keys, member lines, latencies bit for bit).
 Search: independent enumeration of winding-number-1 cycles over the reference RAW relation of two iterations."""
 import depcheck
 import deps
+import lcd_gen
+
+GEN_FILES = ["KdgNode.v", "KdgLcd.v"]
 
 FINISH = dict(level="proof",
               rule="synthetic register-only and mixed kernels (length <= 10 so that enumeration is exhaustive), self-loops, cycles sharing "
@@ -11,8 +18,36 @@ FINISH = dict(level="proof",
                    "with at least one loop-carried dependency")
 
 
+def twice_oracle(ctx, case, isa):
+    """one entry per cycle: two entries with the same member lines cannot both be in the dictionary unless their keys were built from
+    differently ordered line lists (the key is the list of the sorted member lines)"""
+    seen = {}
+    for s, members in case["lcd"]:
+        key = tuple(sorted(m for m, _ in members))
+        if key in seen:
+            ctx.violation("lcd-cycle-reported-twice", "the loop-carried dependency through lines %s is reported twice (%s and %s)"
+                          % (list(key), seen[key], [m for m, _ in members]),
+                          {"isa": isa, "text": case["text"], "flagdeps": case["flagdeps"], "db": case.get("db")})
+        seen[key] = [m for m, _ in members]
+
+
+def record(ctx, recs, kernel, dg, flagdeps):
+    """one more run of the real check_for_loopcarried_dep, networkx wrapped, for the translator cross-check"""
+    if len(kernel) >= type(dg).INSTRUCTION_THRESHOLD:
+        return                          # the multi-process branch: C16 / C19
+    try:
+        recs.append(lcd_gen.record_lcd(kernel, dg, flagdeps))
+    except Exception as e:  # noqa
+        ctx.coverage.setdefault("translated_lcd_runs_not_recorded", []).append(repr(e)[:200])
+
+
 def run(ctx):
     depcheck.prepare(ctx, "Props/C05.v")
+    ctx.trusted += ["translator tools/gen_lcd.py (on tools/gen_c01.py + tools/py2coq.py; fail-closed; cross-checked against CPython on every recorded run) "
+                    "and its prelude Model/PyLcd.v: int = Z, set = membership list, list.sort = stable insertion sort with Python's tuple/list `<`, "
+                    "dict with str keys = insertion-ordered association list, paths from an instruction to its copy visit int nodes only",
+                    "networkx all_simple_paths / ancestors / subgraph and dg.edges[s, d]['latency'] are parameters of the translated definitions"]
+    recs = []
     cases = []
     nref = 0
     for case, kernel, dg, isa, gl, pipe in depcheck.synthetic(ctx, ctx.n(120, 2500), maxlen=10, regs_only=True):
@@ -21,12 +56,15 @@ def run(ctx):
             ctx.nontriv((case["text"], case["db"]["isa_yaml"], case["flagdeps"]))
         if depcheck.lcd_oracle(ctx, case, isa, gl):
             nref += 1
+        twice_oracle(ctx, case, isa)
         if len(cases) < 2:
             ctx.sample({"kernel": case["text"], "lcd": case["lcd"]})
         cases.append(case)
+        record(ctx, recs, kernel, dg, case["flagdeps"])
     for case, kernel, dg, isa, gl, pipe in depcheck.synthetic(ctx, ctx.n(40, 600), maxlen=10):
         ctx.count()
         cases.append(case)
+        record(ctx, recs, kernel, dg, case["flagdeps"])
     # kernels whose line numbers lie beyond 1000 (offset computation)
     for case0, kernel, dg, isa, gl, pipe in depcheck.synthetic(ctx, ctx.n(10, 100), maxlen=6, regs_only=True):
         text = "\n" * ctx.rng.choice([999, 1000, 1200, 2500]) + case0["text"]
@@ -38,7 +76,9 @@ def run(ctx):
         case["db"] = case0["db"]
         ctx.count()
         cases.append(case)
+        record(ctx, recs, kernel, dg, case0["flagdeps"])
     ctx.coverage["reference_enumerations"] = nref
+    lcd_gen.tie(ctx, GEN_FILES, "PropsGen/C05gen.v", lambda: lcd_gen.run_lcd_shards(ctx, recs, "synthetic"))
     depcheck.run_shards(ctx, cases, "synthetic")
     real = [c for c, *_ in depcheck.real(ctx, ctx.n(8, 200), fast_only=ctx.tier == "quick")]
     for c in real:
@@ -46,6 +86,106 @@ def run(ctx):
         ctx.nontriv(c["origin"])
     depcheck.run_shards(ctx, real, "real", size=2)
     memory_cycles(ctx)
+    parallel_cycles(ctx)
+
+
+X86_BODIES = {
+    "coupled": ["vmulsd %xmm0, %xmm1, %xmm1", "vaddsd %xmm1, %xmm0, %xmm0"],
+    "covered": ["vaddsd %xmm2, %xmm9, %xmm4", "vaddsd %xmm3, %xmm9, %xmm5", "vdivsd %xmm4, %xmm3, %xmm2", "vdivsd %xmm5, %xmm2, %xmm3"],
+    "self+pair": ["vaddsd %xmm1, %xmm1, %xmm1", "vaddsd %xmm1, %xmm2, %xmm2", "vmulsd %xmm2, %xmm1, %xmm1"],
+}
+A64_BODIES = {
+    "coupled": ["fmul d1, d1, d0", "fadd d0, d0, d1"],
+    "covered": ["fadd d4, d2, d9", "fadd d5, d3, d9", "fdiv d2, d3, d4", "fdiv d3, d2, d5"],
+    "self+pair": ["fadd d1, d1, d1", "fadd d2, d2, d1", "fmul d1, d1, d2"],
+}
+
+
+def parallel_cycles(ctx):
+    """Interlocking dependency cycles (cycles sharing instructions, a self-cycle next to a 2-cycle, a cycle all of whose members lie on
+    cycles that start earlier) through the REAL multi-process search: the body is padded with independent instructions to >= 50
+    instruction forms so that it lies in the section of ONE worker (2 or 3 workers).  Independent oracle: the padding neither reads
+    nor feeds anything, so the padded kernel has exactly the cycles of the body alone (analysed by the sequential search), shifted
+    by the padding in front; and the dictionary must be the one the sequential search gives on the same padded kernel."""
+    import lcd_par
+    import models
+    import c06
+    avail = models.nonempty_archs()
+    hist = {"kernels": 0, "multi_process_runs": 0, "cycles_expected": 0, "bodies_with_shared_instructions": 0}
+    fams = []
+    for isa, bodies, archs in (("x86", X86_BODIES, c06.X86_MODELS), ("aarch64", A64_BODIES, c06.A64_MODELS)):
+        ms = [m for m in archs if m in avail]
+        if not ms:
+            continue
+        for name, body in bodies.items():
+            fams.append((isa, ms[0], name, list(body)))
+        for j in range(ctx.n(3, 20)):
+            gen = lcd_par.gen_x86 if isa == "x86" else lcd_par.gen_a64
+            text = gen(ctx.rng, ctx.rng.randint(3, 7), ctx.rng.randint(2, 4), ctx.rng.choice([0.3, 0.7, 1.0]))
+            fams.append((isa, ctx.rng.choice(ms[:3]), "generated", [l for l in text.split("\n") if l.strip()]))
+    thr = 50
+
+    def canon(res, shift, nbody):
+        out = set()
+        for key, root, deps, lat in res["lcd"]:
+            ls = tuple(sorted(l - shift for l, _ in deps))
+            out.add((ls, lat))
+        return out
+    for isa, arch, name, body in fams:
+        pad = (lambda i: "movq $%d, %%r15" % i) if isa == "x86" else (lambda i: "mov x28, #%d" % i)
+        base_spec = {"isa": isa, "arch": arch, "text": "\n".join(body) + "\n"}
+        try:
+            base = lcd_par.analyse(base_spec, timeout=-1, want_paths=False, report=False)
+        except Exception as e:  # noqa
+            ctx.coverage.setdefault("parallel_family_skipped", []).append("%s %s: %r" % (arch, name, e))
+            continue
+        if base["parallel"]:
+            continue
+        want = canon(base, 0, len(body))
+        hist["kernels"] += 1
+        hist["cycles_expected"] += len(want)
+        members = [set(ls) for ls, _ in want]
+        if any(a & b for i, a in enumerate(members) for b in members[i + 1:]):
+            hist["bodies_with_shared_instructions"] += 1
+            ctx.nontriv("\n".join(body))
+        pre = ctx.rng.choice([0, 0, 3])
+        total = ctx.rng.choice([thr, thr + 3, thr + 14])
+        lines = [pad(i) for i in range(pre)] + body + [pad(pre + i) for i in range(total - pre - len(body))]
+        spec = {"isa": isa, "arch": arch, "text": "\n".join(lines) + "\n"}
+        rep0 = {"kind": "parallel", "isa": isa, "arch": arch, "text": spec["text"], "body": body, "body_first_line": pre + 1}
+        try:
+            seq = lcd_par.analyse(spec, threshold=10 ** 9, timeout=-1, want_paths=False, report=False)
+        except Exception as e:  # noqa
+            ctx.violation("lcd-raises", "padded kernel (%s on %s): %r" % (name, arch, e), rep0)
+            continue
+        for W in (2, 3):
+            rep = dict(rep0, W=W)
+            try:
+                par = lcd_par.analyse(spec, W=W, timeout=-1, want_paths=False, report=False)
+            except Exception as e:  # noqa
+                ctx.violation("lcd-raises", "multi-process search, %d workers (%s on %s): %r" % (W, name, arch, e), rep)
+                continue
+            ctx.count()
+            if not par["parallel"]:
+                ctx.obligation("a kernel of %d instruction forms is searched by worker processes" % par["klen"], "harness", False,
+                               "INSTRUCTION_THRESHOLD moved? klen=%d" % par["klen"])
+                continue
+            hist["multi_process_runs"] += 1
+            got = canon(par, pre, len(body))
+            missing = sorted(want - got)
+            extra = sorted(got - want)
+            if missing:
+                ctx.violation("lcd-cycle-missing", "%s, %d forms, %d workers: the cross-iteration cycle through lines %s (latency %s) of the loop body "
+                              "is reported for the body alone but not for the padded kernel (reported: %s) -- body: %s"
+                              % (arch, par["klen"], W, [l + pre for l in missing[0][0]], float.fromhex(missing[0][1]),
+                                 sorted([l + pre for l in ls] for ls, _ in got), " ; ".join(body)), rep)
+            if extra:
+                ctx.violation("lcd-spurious", "%s, %d forms, %d workers: reported loop-carried dependency through lines %s is not one of the body alone -- body: %s"
+                              % (arch, par["klen"], W, [l + pre for l in extra[0][0]], " ; ".join(body)), rep)
+            if not missing and not extra and par["lcd"] != seq["lcd"]:
+                ctx.violation("lcd-parallel-differs-from-sequential", "%s, %d forms, %d workers: the dictionary differs from the one of the sequential search "
+                              "on the same kernel: %s vs %s" % (arch, par["klen"], W, par["lcd"][:3], seq["lcd"][:3]), rep)
+    ctx.coverage["multi_process_cycles"] = hist
 
 
 def memory_cycles(ctx):
@@ -117,6 +257,19 @@ def memory_cycles(ctx):
 
 def replay(ctx, obj):
     r = obj["replay"]
+    if r.get("kind") == "parallel":
+        import lcd_par
+        spec = {"isa": r["isa"], "arch": r["arch"], "text": r["text"]}
+        base = lcd_par.analyse({"isa": r["isa"], "arch": r["arch"], "text": "\n".join(r["body"]) + "\n"}, timeout=-1, want_paths=False, report=False)
+        par = lcd_par.analyse(spec, W=r.get("W", 2), timeout=-1, want_paths=False, report=False)
+        shift = r["body_first_line"] - 1
+        want = {tuple(sorted(l for l, _ in deps)) for _, _, deps, _ in base["lcd"]}
+        got = {tuple(sorted(l - shift for l, _ in deps)) for _, _, deps, _ in par["lcd"]}
+        ctx.log("replay: body alone %s, padded kernel through %d workers %s" % (sorted(want), r.get("W", 2), sorted(got)))
+        ctx.count()
+        if want != got:
+            ctx.violation(obj["key"], obj["what"], r)
+        return
     if r.get("kind") == "memory":
         pipe = deps.Pipeline(ctx, r["isa"], arch=r["arch"])
         case, kernel, dg = deps.build_case(pipe, r["text"], False)
